@@ -10,8 +10,10 @@ import (
 	"encoding/hex"
 	"encoding/json"
 	"fmt"
+	"runtime"
 	"runtime/debug"
 	"runtime/metrics"
+	"sort"
 	"strings"
 
 	"github.com/paulmach/orb"
@@ -39,8 +41,9 @@ func guard(c *mc.Ctx, entry string, n int, input func() string, fn func()) {
 	before := allocated()
 	defer func() {
 		if r := recover(); r != nil {
-			if strings.HasPrefix(entry, "bson->") && panicInBSONDriver(debug.Stack()) {
-				// the panic is raised inside go.mongodb.org/mongo-driver while it reads the document
+			if _, rt := r.(runtime.Error); rt && strings.HasPrefix(entry, "bson->") && panicInBSONDriver(debug.Stack()) {
+				// a run-time error (index / slice bounds) raised inside go.mongodb.org/mongo-driver while it reads the
+				// document; a deliberate panic of a driver accessor that orb called on the wrong element type is not this
 				c.Failf("panic-inside-bson-driver", "%s: the BSON driver panicked: %v | input %s", entry, r, input())
 				return
 			}
@@ -212,6 +215,24 @@ func decodeBSON(c *mc.Ctx, bd []byte, in func() string) (ok bool) {
 }
 
 // ---- seeds: valid encodings whose mutations are explored ----
+
+// sortedBSON re-encodes a document with its top-level elements in key order: a feature collection is marshalled
+// from a map, and the seeds must be the same bytes in every process (shards, replays).
+func sortedBSON(doc []byte) []byte {
+	elems, err := bson.Raw(doc).Elements()
+	if err != nil {
+		panic(err)
+	}
+	sort.Slice(elems, func(i, j int) bool { return elems[i].Key() < elems[j].Key() })
+	var body []byte
+	for _, e := range elems {
+		body = append(body, e...)
+	}
+	out := make([]byte, 4, len(body)+5)
+	binary.LittleEndian.PutUint32(out, uint32(len(body)+5))
+	out = append(out, body...)
+	return append(out, 0)
+}
 
 var seedGeoms = []orb.Geometry{
 	orb.Point{1, 2},
@@ -538,6 +559,16 @@ func main() {
 			bsonSeeds = append(bsonSeeds, bb)
 		}
 	}
+	for _, g := range seedGeoms[:3] {
+		fc := geojson.NewFeatureCollection().Append(geojson.NewFeature(g))
+		fc.BBox = geojson.BBox{1, 2, 3, 4}
+		fc.ExtraMembers = map[string]interface{}{"x": 1.0}
+		if bb, err := bson.Marshal(fc); err == nil {
+			bsonSeeds = append(bsonSeeds, sortedBSON(bb))
+		}
+	}
+	// byte substitution menu: every BSON element type code, the protobuf wire types / WKB order bytes, extremes
+	subst := []byte{0x00, 0x01, 0x02, 0x03, 0x04, 0x05, 0x06, 0x07, 0x08, 0x09, 0x0a, 0x0b, 0x0c, 0x0d, 0x0e, 0x0f, 0x10, 0x11, 0x12, 0x13, 0x20, 0x22, 0x28, 0x29, 0x2c, 0x5b, 0x5d, 0x6e, 0x7b, 0x7d, 0x7f, 0x80, 0xff}
 	type format struct {
 		name  string
 		seeds [][]byte
@@ -552,10 +583,10 @@ func main() {
 	}
 	for _, f := range formats {
 		f := f
-		r.ExploreSharded("mutate-"+f.name, fmt.Sprintf("%d valid %s encodings: truncation at every length, every single bit flip, every aligned and unaligned 4-byte window overwritten with each boundary count in both byte orders, every prefix spliced with every suffix of the next encoding", len(f.seeds), f.name), mc.Opts{MaxDev: -1}, 16, func(c *mc.Ctx) {
+		r.ExploreSharded("mutate-"+f.name, fmt.Sprintf("%d valid %s encodings: truncation at every length, every single bit flip, every byte replaced by each of 33 structural values (thorough: all 256), every aligned and unaligned 4-byte window overwritten with each boundary count in both byte orders, every prefix spliced with every suffix of the next encoding", len(f.seeds), f.name), mc.Opts{MaxDev: -1}, 16, func(c *mc.Ctx) {
 			si := c.Choose(len(f.seeds))
-			op := c.Choose(4)
-			if !r.Owned(c, si*4+op) {
+			op := c.Choose(5)
+			if !r.Owned(c, si*5+op) {
 				return
 			}
 			seed := f.seeds[si]
@@ -581,6 +612,21 @@ func main() {
 					binary.BigEndian.PutUint32(b[i:], v)
 				} else {
 					binary.LittleEndian.PutUint32(b[i:], v)
+				}
+			case 4: // byte substitution: every position x every byte of the menu (thorough: every byte value)
+				b = cp(seed)
+				if len(b) == 0 {
+					return
+				}
+				i := c.Choose(len(b))
+				if r.Quick() {
+					b[i] = subst[c.Choose(len(subst))]
+				} else {
+					b[i] = byte(c.Choose(256))
+				}
+				if b[i] == seed[i] {
+					c.Skip()
+					return
 				}
 			case 3: // splice
 				other := f.seeds[(si+1)%len(f.seeds)]
